@@ -633,8 +633,9 @@ func (cr *checkRun) report(start time.Time, loadS float64, reports []*FuncReport
 		"violations":  failed + len(undecided),
 		"assumptions": assumptions,
 		"coverage": map[string]interface{}{
-			"obligations":              total,
+			"obligations":              proved + failed,
 			"discharged":               proved,
+			"obligations_generated":    total,
 			"known_findings":           knownN,
 			"unproved_assumed":         unproved,
 			"failed":                   failed,
@@ -650,7 +651,7 @@ func (cr *checkRun) report(start time.Time, loadS float64, reports []*FuncReport
 			"undecided":                undecided,
 			"stale":                    stale,
 			"obligation_list":          oblList,
-			"explanation":              "every obligation is one SMT query generated from go/ssa of the current working tree; discharged = answered unsat by at least one solver",
+			"explanation":              "every obligation is one SMT query per path generated from go/ssa of the current working tree; discharged = answered unsat by at least one solver. obligations counts the obligations this check claims (proved + failed); obligations_generated additionally counts open known findings (listed in known_findings.json, reported as KNOWN-FINDING lines) and obligations the contract marks unproved (assumptions, listed under assumptions) - neither is counted as discharged",
 		},
 	}
 	if o.Evidence != "" {
